@@ -204,7 +204,7 @@ class Socket:
             del net.fail_next[self.owner]
             net.stats['injected_socket_errors'] += 1
             raise ZMQError(5, 'injected I/O error on send')
-        parts = [bytes(p) if not isinstance(p, bytes) else p for p in parts]
+        parts = [p if isinstance(p, bytes) else _wire_bytes(p) for p in parts]
         if self.type == PUB:
             net._pub_send(self, parts)
         elif self.type == PUSH:
@@ -601,6 +601,18 @@ class Net:
 
     def open_sockets(self, proc):
         return [s for s in self.sockets if s.owner is proc and not s.closed]
+
+
+def _wire_bytes(p):
+    """What libzmq puts on the wire for a buffer object: its MEMORY, not its logical row-major content (they differ for
+    Fortran-ordered arrays)."""
+    if isinstance(p, memoryview):
+        return p.tobytes(order='A') if p.contiguous else bytes(p)
+    try:
+        mv = memoryview(p)
+    except TypeError:
+        return bytes(p)
+    return mv.tobytes(order='A') if mv.contiguous else bytes(mv)
 
 
 def _compatible(a, b):
